@@ -20,12 +20,12 @@ def make_worker(tier):
             t = b.mod.types[c.name]
             for v, d in corpus.case_values(b, c):
                 fe = features.features(b.mod, t, v)
-                mask = 'uper,oer' if 'has_SET' in fe else ('oer' if 'k:ObjectDescriptor' in fe else '')
+                mask = ''   # (types without a PER/OER codec used to crash here; repaired, so nothing is masked any more)
                 lines.append('xform %s %s%s' % (c.name, d.hex(), (' mask=' + mask) if mask else ''))
                 meta.append((c, v, d, fe, 'xform', None))
                 # representation obtained by decoding a non-canonical BER form: canonical outputs must equal those of the DER-built one
                 try:
-                    vs = ber.variants(lambda ch: ber.encode(b.mod, t, v, ch), k, cap=60)
+                    vs = ber.variants(lambda ch: ber.encode_policy(b.mod, t, v, ch), k, cap=60)
                 except Exception:
                     vs = []
                 for enc, ch in vs:
